@@ -7,9 +7,31 @@ from props.common import replay_record
 
 def run(tier, seed):
     out = Outcome("C01", tier, seed)
-    vfsrun.bfs(out, "link1", ["--links", "1", "--maxstates", "1500"], groups_per_chunk=100)
-    vfsrun.hist(out, "rand", "rand", ["--n", "24", "--len", "150", "--seed", str(seed)])
-    out.finish(dict(rule="reachability fix-point of the real Memfs over names {a,b} x depth 2 x data {e,x}; every state x every call of the alphabet judged by TLC"))
+    thorough = tier == "thorough"
+    # (a) design level: the reference machine to its reachability fix-point with the C01 laws as action properties
+    m0 = vfsrun.mc_vfs(out, "MC_Vfs")
+    m1 = vfsrun.mc_vfs(out, "MC_Vfs_L1")
+    if thorough:
+        vfsrun.mc_vfs(out, "MC_Vfs_L1S")
+        vfsrun.mc_vfs(out, "MC_Vfs_T")
+    # (b) the real Memfs explored to ITS fix-point over the same alphabet; every transition judged by TLC
+    s0 = vfsrun.bfs(out, "nolink", ["--links", "0"])
+    vfsrun.crosscheck(out, "names{a,b} depth2 links0", s0, m0)
+    if thorough:
+        s1 = vfsrun.bfs(out, "link1", ["--links", "1"], groups_per_chunk=430)
+        vfsrun.crosscheck(out, "names{a,b} depth2 links<=1", s1, m1)
+        vfsrun.bfs(out, "cwd", ["--links", "0", "--alpha", "cwd"], groups_per_chunk=100)
+    else:
+        vfsrun.bfs(out, "link1", ["--links", "1", "--maxstates", "1200"], groups_per_chunk=100)
+    # (c) long random histories over a larger namespace with every argument respelled (relative, unclean, ~, $HOME, file://)
+    n, ln = (400, 300) if thorough else (24, 150)
+    vfsrun.hist(out, "rand", "rand", ["--n", str(n), "--len", str(ln), "--seed", str(seed)], recs_per_chunk=25 if thorough else 2)
+    out.assumptions += ["the Debug rendering of Memfs is its complete state (projection parsed by harness/src/memproj.rs)",
+                        "DECISIONS D1-D11 in spec/Vfs.tla / Trace_Vfs.tla: outcomes the documentation leaves open are accepted either way"]
+    out.finish(dict(rule="reachability fix-point of the REAL Memfs over names {a,b} x depth 2 x data {empty,x} (links 0: complete; links<=1: %s) with 324-373 calls per state "
+                         "(every mutating method x every path/pair + 25 query methods x every path), plus seeded random histories over names {a,b,c} depth 3 with respelled arguments; "
+                         "every step judged by TLC against the reference operators; non-trivial = the call changed the state or failed" % ("complete" if thorough else "first 1200 states"),
+                    exhaustive=True))
 
 
 def replay(path):
